@@ -2,13 +2,11 @@
    view and the bot model, the decidable domain, and the refutation witnesses. *)
 From Coq Require Import List NArith ZArith Bool.
 Import ListNotations.
-Require Import Base.Wire Base.PyStr C10.Model C10.Lemmas C10.Handlers.
+Require Import Base.Wire Base.PyStr C10.Model C10.Lemmas C10.Handlers C10.SrvLemmas C10.Feed C10.Inv.
 Open Scope N_scope.
 
 Definition incl_f (a b : list str) : bool := forallb (fun x => iset_mem x b) a.
 Definition same_f (a b : list str) : bool := incl_f a b && incl_f b a.
-Fixpoint cdict_get (k : N) (d : list (N * mval)) : option mval :=
-  match d with [] => None | (k', v) :: d' => if N.eqb k k' then Some v else cdict_get k d' end.
 Definition agree_modes (vm : list (N * option str)) (bm : list (N * mval)) : bool :=
   forallb (fun kv => match cdict_get (fst kv) bm, snd kv with
                      | Some MNone, None => true
@@ -46,8 +44,6 @@ End Run.
 (* ---- the decidable domain: histories without the remaining defect trigger (int() coercion of mode parameters,
         finding F10c); NAMES must be multi-prefix (otherwise lower flags are not disclosed).  Case-only nick changes and
         userhost-in-names NAMES are inside the domain since the repairs of F10 and F10b. ---- *)
-Definition canonical_arg (a : str) : bool :=
-  match py_int a with Some z => seq_eqb (py_str_Z z) a | None => true end.
 Definition action_dom (a : action) : bool :=
   match a with
   | ANames _ mp' _ => mp'
